@@ -15,6 +15,51 @@ TYPES = ['signed char', 'unsigned char', 'short', 'unsigned short', 'int', 'unsi
 # mixed-operand operators used by the size computations in expr.h / problem.h
 MIXED = [('int', '*', 'int'), ('int', '+', 'int'), ('unsigned long', '+', 'unsigned long'),
          ('int', '+', 'unsigned long'), ('int', '*', 'unsigned long')]
+# reversed form `T1 op SafeInt<T2>` (src/asl/aslbuilder.cc: sizeof(..) + SafeInt<int>(..) * sizeof(..))
+REVERSED = [('unsigned long', '+', 'int')]
+
+# every file of the library / solvers that mentions SafeInt.  The header use sites are instantiated and their
+# operator instantiations compared with the roots below (uses_covered); the .cc sites cannot be compiled here
+# (ASL / LocalSolver SDK) and were read by hand: their operator forms are in MIXED / REVERSED.  A new use site
+# is a translate error, so that it cannot silently fall outside the theorems.
+KNOWN_USE_SITES = {'include/mp/safeint.h', 'include/mp/expr.h', 'include/mp/problem.h',
+                   'src/asl/aslbuilder.cc', 'src/asl/aslbuilder.h', 'solvers/localsolver/localsolver.cc'}
+
+
+def use_sites(repo):
+    found = set()
+    for top in ('include', 'src', 'solvers', 'nl-writer2'):
+        for dp, dn, fn in os.walk(os.path.join(repo, top)):
+            for f in fn:
+                if f.endswith(('.h', '.hpp', '.cc', '.cpp', '.c')):
+                    p = os.path.join(dp, f)
+                    try:
+                        if re.search(r'\bSafeInt\b|\bSafeAbs\b', open(p, errors='replace').read()):
+                            found.add(os.path.relpath(p, repo))
+                    except OSError:
+                        pass
+    return found
+
+
+def used_operator_instantiations(repo, work):
+    """operator instantiations of SafeInt reached from expr.h / problem.h when every member is instantiated"""
+    tu = os.path.join(work, 'safeint_uses.cc')
+    open(tu, 'w').write('#include "mp/problem.h"\n#include "mp/expr.h"\nnamespace mp {\n'
+                        'template class BasicExprFactory< std::allocator<char> >;\n'
+                        'template class BasicProblem< BasicProblemParams<int> >;\n}\n')
+    used = set()
+
+    def walk(n):
+        if isinstance(n, dict):
+            if n.get('kind') == 'FunctionDecl' and n.get('name', '') in ('operator+', 'operator-', 'operator*') \
+                    and 'SafeInt' in n.get('type', {}).get('qualType', '') \
+                    and not re.search(r'\bT[12]?\b', n['type']['qualType']):
+                used.add((n['name'], n['type']['qualType'].replace('mp::SafeInt', 'SafeInt')))
+            for c in n.get('inner', []):
+                walk(c)
+    for d in clang_dump(tu, 'mp::operator', [os.path.join(repo, 'include')]):
+        walk(d)
+    return used
 
 
 def main(repo, out, work):
@@ -30,6 +75,8 @@ def main(repo, out, work):
                 lines.append('template SafeInt<%s>::SafeInt(%s);' % (t, u))
     for t1, op, t2 in MIXED:
         lines.append('template SafeInt<%s> operator%s(SafeInt<%s>, %s);' % (t1, op, t1, t2))
+    for t1, op, t2 in REVERSED:
+        lines.append('template SafeInt<%s> operator%s(%s, SafeInt<%s>);' % (t2, op, t1, t2))
     lines.append('}')
     open(tu, 'w').write('\n'.join(lines) + '\n')
     idx = Index()
@@ -51,6 +98,9 @@ def main(repo, out, work):
             m = re.match(r'SafeInt<(.+)> \(SafeInt<(.+)>, ([^<>]+)\)$', q)
             if m and m.group(1) == m.group(2) and m.group(1) in TAGS and m.group(3) in TAGS:
                 roots.append(('mix%s_%s_%s' % (opn[nm], TAGS[m.group(1)], TAGS[m.group(3)]), did, ('mix' + opn[nm], m.group(1), m.group(3))))
+            m = re.match(r'SafeInt<(.+)> \(([^<>]+), SafeInt<(.+)>\)$', q)
+            if m and m.group(1) == m.group(3) and m.group(1) in TAGS and m.group(2) in TAGS:
+                roots.append(('rev%s_%s_%s' % (opn[nm], TAGS[m.group(2)], TAGS[m.group(1)]), did, ('rev' + opn[nm], m.group(2), m.group(1))))
         elif nm == 'SafeAbs':
             m = re.match(r'typename MakeUnsigned<(.+)>::Type \((.+)\)$', q)
             m2 = re.match(r'.* \((.+)\)$', q)
@@ -64,9 +114,38 @@ def main(repo, out, work):
             t, u = m.group(1), m2.group(1)
             roots.append(('ctor_%s_%s' % (TAGS[u], TAGS[t]), ('CXXConstructorDecl', cls, ctype), ('ctor', t, u)))
     roots.sort()
-    expect = len(TYPES) * 4 + len(TYPES) * (len(TYPES) - 1) + len(MIXED)
+    expect = len(TYPES) * 4 + len(TYPES) * (len(TYPES) - 1) + len(MIXED) + len(REVERSED)
     if len(roots) != expect:
         raise TranslateError('expected %d instantiations, found %d' % (expect, len(roots)))
+    # the instantiations the library really uses must be among the roots
+    sites = use_sites(repo)
+    if sites - KNOWN_USE_SITES:
+        raise TranslateError('new SafeInt use site(s) %s: their operator instantiations are not known to be covered' % sorted(sites - KNOWN_USE_SITES))
+    covered = set()
+    for name, did, meta in roots:
+        kind, t, u = meta
+        if kind in ('add', 'sub', 'mul'):
+            covered.add(('operator' + {'add': '+', 'sub': '-', 'mul': '*'}[kind], t, 'S', t))
+        elif kind.startswith('mix'):
+            covered.add(('operator' + {'add': '+', 'sub': '-', 'mul': '*'}[kind[3:]], t, 'P', u))
+        elif kind.startswith('rev'):
+            covered.add(('operator' + {'add': '+', 'sub': '-', 'mul': '*'}[kind[3:]], u, 'R', t))
+    uncovered = []
+    for nm, q in sorted(used_operator_instantiations(repo, work)):
+        m = re.match(r'SafeInt<(.+?)> \(SafeInt<(.+?)>, SafeInt<(.+?)>\)$', q)
+        if m:
+            key = (nm, m.group(1), 'S', m.group(1))
+        else:
+            m = re.match(r'SafeInt<(.+?)> \(SafeInt<(.+?)>, ([^<>]+)\)$', q)
+            if m:
+                key = (nm, m.group(1), 'P', m.group(3))
+            else:
+                m = re.match(r'SafeInt<(.+?)> \(([^<>]+), SafeInt<(.+?)>\)$', q)
+                key = (nm, m.group(1), 'R', m.group(2)) if m else (nm, q, '?', '')
+        if key not in covered:
+            uncovered.append('%s %s' % (nm, q))
+    if uncovered:
+        raise TranslateError('SafeInt operator instantiation(s) used by expr.h/problem.h but not among the translated roots: %s' % uncovered)
     table = []
     for name, did, meta in roots:
         tr.reserved[did] = name
